@@ -116,7 +116,9 @@ Print Assumptions C24_responder_half.
    with distinct ids, every plan and extension combination for each of them, and every schedule — i.e. every
    interleaving of the requests' link loads with one another, requests starting at any point — in which a
    request is started at most once and only known requests are started.  [sim] is the model's execution of a
-   schedule (SStart q = prepareQuery, SStep q = q's next link load and, after the last, its closing transaction). *)
+   schedule (SStart q = prepareQuery, SStep q = q's next link load and, after the last, its closing transaction;
+   SStartPaused q = prepareQuery of a request that the incoming-request hook paused: RequestPaused goes out and the
+   extensions are registered all the same; SUnpause q = UnpauseResponse, nothing on the wire). *)
 Theorem C03_monitor : forall (St : cid -> sres) (reqs : list rreq) (sched : list sact),
   NoDup (map rq_id reqs) -> NoDup (starts sched) -> incl (starts sched) (map rq_id reqs) ->
   let tl := sim plt_new (map (rst_init true St) reqs) sched in
@@ -164,6 +166,18 @@ Example C03_nonvacuous_scopes :
   let tl := sim plt_new (map (rst_init true ex_R) [ex_q1; q2]) ex_sched in
   map wm_blocks (filter (fun m => N.eqb (wm_req m) 2) (concat (map snd tl))) = [[0]; [1]; []; []; []] /\
   monitor_C03 ex_R [ex_q1; q2] tl = true.
+Proof. vm_compute. repeat split. Qed.
+
+(* a request paused by the incoming-request hook and unpaused later keeps its extensions: with
+   do-not-send-first-blocks = 1 the first block is withheld after the unpause as well *)
+Example C03_nonvacuous_paused :
+  let tl := sim plt_new (map (rst_init true ex_R) [ex_q1; ex_q2])
+              [SStartPaused 1; SStart 2; SStep 2; SUnpause 1; SStep 1; SStep 1] in
+  concat (map snd tl) =
+    [pause_msg 1; rec_msg 2 0 true true 1; rec_msg 1 0 true false 1; rec_msg 1 1 true true 2] /\
+  monitor_C03 ex_R [ex_q1; ex_q2] tl = true /\ forallb (mon24_req tl) [ex_q1; ex_q2] = true /\
+  (* the executable statement rejects the resumed response sending the block it was told to skip *)
+  monitor_C03 ex_R [ex_q1] [(SStartPaused 1, [pause_msg 1]); (SUnpause 1, []); (SStep 1, [rec_msg 1 0 true true 1])] = false.
 Proof. vm_compute. repeat split. Qed.
 
 (* a missing root: one Missing entry, no block, content-not-found *)
